@@ -32,6 +32,20 @@ Theorem C10_spec_pop_default_only_when_empty : forall s d s' v,
 Proof. exact pop_default_only_when_empty. Qed.
 Print Assumptions C10_spec_pop_default_only_when_empty.
 
+(* an operation that raises leaves the queue unchanged: add whose priority the key rejects (for a
+   fresh and for a live task), remove of an absent task, pop/peek on an empty queue *)
+Theorem C10_spec_error_leaves_unchanged : forall s op s' e,
+  spec_step s op = (s', OErr e) -> s' = s.
+Proof. exact error_leaves_unchanged. Qed.
+Print Assumptions C10_spec_error_leaves_unchanged.
+
+Theorem C10_spec_only_add_remove_pop_change : forall s op s' o,
+  spec_step s op = (s', o) -> s' <> s ->
+  (exists t p, op = Add t p /\ o = ONone) \/ (exists t, op = Remove t /\ o = ONone) \/
+  (exists d t, op = Pop d /\ o = OTask t).
+Proof. exact only_add_remove_pop_change. Qed.
+Print Assumptions C10_spec_only_add_remove_pop_change.
+
 Theorem C10_spec_remove_makes_dead : forall s t s' o,
   spec_step s (Remove t) = (s', o) -> s_mem s' t = false.
 Proof. exact remove_makes_dead. Qed.
@@ -45,10 +59,11 @@ Print Assumptions C10_spec_tasks_unique.
 Example C10_spec_example :
   spec_run [] [Add 1 (Some 5%Z); Add 2 (Some 5%Z); Add 3 (Some 7%Z); Add 4 None; Remove 3; Peek None; Pop None;
                Add 1 (Some 5%Z); Len; Pop None; Pop None; Pop None; Pop (Some (DOther 9)); Pop None; Remove 1;
-               Add 7 None; Add 8 None; Pop (Some (DTask 7)); Len; Pop (Some (DTask 7)); Pop (Some (DTask 7)); Len]
+               Add 7 None; Add 8 None; AddBad 7 ValueError; AddBad 9 TypeError; Len;
+               Pop (Some (DTask 7)); Len; Pop (Some (DTask 7)); Pop (Some (DTask 7)); Len]
   = [ONone; ONone; ONone; ONone; ONone; OTask 1; OTask 1; ONone; OLen 3; OTask 2; OTask 1; OTask 4;
      ODefault 9; OErr IndexError; OErr KeyError;
-     ONone; ONone; OTask 7; OLen 1; OTask 8; OTask 7; OLen 0].
+     ONone; ONone; OErr ValueError; OErr TypeError; OLen 2; OTask 7; OLen 1; OTask 8; OTask 7; OLen 0].
 Proof. vm_compute. reflexivity. Qed.
 
 (* ---- both queue classes refine the reference, for all histories ---------------- *)
